@@ -51,9 +51,33 @@ func newOwnRig(realSleep bool) *ownRig {
 	r.ln = fasthttputil.NewInmemoryListener()
 	go func() { _ = r.app.Listener(r.ln, fiber.ListenConfig{DisableStartupMessage: true}) }()
 	r.fc = &fasthttp.Client{}
-	r.fc.Dial = func(string) (net.Conn, error) { return r.ln.Dial() }
+	r.fc.Dial = func(addr string) (net.Conn, error) {
+		// a host "fail-<ms>-<id>.test" has a transport that fails after <ms> (virtual or real) ms
+		if ms, ok := failHostMs(addr); ok {
+			time.Sleep(time.Duration(ms) * time.Millisecond)
+			return nil, fmt.Errorf("%s%s", failMarker, addr)
+		}
+		return r.ln.Dial()
+	}
 	r.cl = client.NewWithClient(r.fc)
 	return r
+}
+
+const failMarker = "harness: transport failed for "
+
+func failHost(ms int, id string) string { return "fail-" + strconv.Itoa(ms) + "-" + id + ".test" }
+
+func failHostMs(addr string) (int, bool) {
+	if !strings.HasPrefix(addr, "fail-") {
+		return 0, false
+	}
+	rest := addr[len("fail-"):]
+	i := strings.IndexByte(rest, '-')
+	if i < 0 {
+		return 0, false
+	}
+	ms, err := strconv.Atoi(rest[:i])
+	return ms, err == nil
 }
 
 func (r *ownRig) close() {
@@ -67,6 +91,8 @@ type ownReq struct {
 	TimeoutMs int    `json:"timeout_ms"`       // 0 = none
 	Cancel    bool   `json:"cancel,omitempty"` // the request's context is cancelled by the canceller worker
 	ClientTO  bool   `json:"client_level_timeout,omitempty"`
+	// FailMs > 0: the request goes to a host whose transport (dial) fails after FailMs ms
+	FailMs int `json:"transport_fails_after_ms,omitempty"`
 }
 
 type ownResult struct {
@@ -90,7 +116,11 @@ func doOwnReq(cl *client.Client, rq ownReq, ctx context.Context) (res ownResult)
 	if rq.TimeoutMs > 0 && !rq.ClientTO {
 		req.SetTimeout(time.Duration(rq.TimeoutMs) * time.Millisecond)
 	}
-	resp, err := req.Get("http://own.test/o/" + rq.ID + "?d=" + strconv.Itoa(rq.DelayMs))
+	host := "own.test"
+	if rq.FailMs > 0 {
+		host = failHost(rq.FailMs, rq.ID)
+	}
+	resp, err := req.Get("http://" + host + "/o/" + rq.ID + "?d=" + strconv.Itoa(rq.DelayMs))
 	if err != nil {
 		res.Err = err.Error()
 		res.Timeout = errors.Is(err, client.ErrTimeoutOrCancel)
@@ -124,8 +154,34 @@ func judgeOwn(results []ownResult, stress bool) []finding {
 			if r.Req.TimeoutMs == 0 && !r.Req.Cancel {
 				out = append(out, finding{"ownership|timeout-error-without-timeout-or-cancel", "a request without timeout and without cancellation failed with ErrTimeoutOrCancel", det})
 			}
+		case r.Err != "" && r.Req.FailMs > 0 && strings.Contains(r.Err, failMarker+failHost(r.Req.FailMs, r.Req.ID)):
+			// its own transport error
+		case r.Err != "" && strings.Contains(r.Err, failMarker):
+			// the transport error of ANOTHER request: an error is a result like a response, and it
+			// belongs to the request whose transport produced it
+			cls := "other"
+			var owner *ownResult
+			for i := range results {
+				o := &results[i]
+				if o.Req.FailMs > 0 && strings.Contains(r.Err, failMarker+failHost(o.Req.FailMs, o.Req.ID)) {
+					owner = o
+				}
+			}
+			switch {
+			case stress:
+				cls = "concurrent-timeouts-and-cancellations"
+			case owner != nil && owner.Timeout:
+				cls = "pooled-error-channel-reused-after-timeout"
+			}
+			if owner != nil {
+				det["owner_of_the_error"] = owner
+			}
+			out = append(out, finding{"ownership|error-of-other-request|" + cls,
+				fmt.Sprintf("request %s returned the transport error of another request: %s", r.Req.ID, r.Err), det})
 		case r.Err != "":
 			out = append(out, finding{"ownership|unexpected-error|" + sigWord(r.Err), "the call failed with an error other than ErrTimeoutOrCancel", det})
+		case r.Req.FailMs > 0:
+			out = append(out, finding{"ownership|response-for-failed-transport", "a request whose transport failed was handed a response", det})
 		case r.Body == "id="+r.Req.ID:
 		default:
 			other := byID[strings.TrimPrefix(r.Body, "id=")]
@@ -193,8 +249,12 @@ func genOwnScenario(r *gen.Rand) *ownScenario {
 		sc.Canceller = true
 		sc.CancelAtMs = d1 + off
 	}
-	w0 := []ownReq{first, {DelayMs: d1 + r.Range(2, 5), TimeoutMs: gen.Pick(r, []int{0, 40})}}
 	if r.Chance(1, 3) {
+		// the transport of the first request fails (late dial error) around its deadline
+		first.FailMs = d1
+	}
+	w0 := []ownReq{first, {DelayMs: d1 + r.Range(2, 5), TimeoutMs: gen.Pick(r, []int{0, 40})}}
+	if r.Chance(1, 3) || first.FailMs > 0 {
 		w0 = append(w0, ownReq{DelayMs: r.Range(0, 2), TimeoutMs: gen.Pick(r, []int{0, 40})})
 	}
 	sc.Workers = append(sc.Workers, w0)
@@ -203,6 +263,9 @@ func genOwnScenario(r *gen.Rand) *ownScenario {
 		w1 := []ownReq{{DelayMs: d, TimeoutMs: gen.Pick(r, []int{0, d - 1, d, d + 1, 40})}}
 		if w1[0].TimeoutMs < 0 {
 			w1[0].TimeoutMs = 0
+		}
+		if w1[0].TimeoutMs > 0 && r.Chance(1, 4) {
+			w1[0].FailMs = d
 		}
 		if r.Bool() {
 			w1 = append(w1, ownReq{DelayMs: r.Range(0, 6), TimeoutMs: gen.Pick(r, []int{0, 40})})
@@ -489,6 +552,15 @@ func ownershipCorpus(e *ev.Env) {
 	})
 	e.Corpus("two-callers", func(c *ev.Case) {
 		sc := &ownScenario{Ticks: 2, Workers: [][]ownReq{{{DelayMs: 2, TimeoutMs: 3}}, {{DelayMs: 5}}}}
+		exploreOwn(e, c, sc, 64, c.R)
+	})
+	// request 1 times out, its transport fails afterwards; the late error must not reach anybody
+	e.Corpus("transport-fails-after-timeout-next-requests", func(c *ev.Case) {
+		sc := &ownScenario{Ticks: 2, Workers: [][]ownReq{{{FailMs: 3, TimeoutMs: 2}, {DelayMs: 4, TimeoutMs: 40}, {DelayMs: 1}}}}
+		exploreOwn(e, c, sc, 64, c.R)
+	})
+	e.Corpus("transport-fails-around-deadline-two-callers", func(c *ev.Case) {
+		sc := &ownScenario{Ticks: 2, Workers: [][]ownReq{{{FailMs: 2, TimeoutMs: 3}, {DelayMs: 3}}, {{FailMs: 3, TimeoutMs: 2}, {DelayMs: 2}, {DelayMs: 0}}}}
 		exploreOwn(e, c, sc, 64, c.R)
 	})
 	// control: the timeout fires first, the goroutine loses the CAS, nothing may go wrong
